@@ -153,10 +153,14 @@ impl Types {
         let mut sub_types = BTreeMap::new();
 
         let mut unresolved_sub_types = type_definition.struct_references().collect::<Vec<_>>();
-        while let Some(sub_type_name) = unresolved_sub_types
-            .pop()
-            .filter(|name| !sub_types.contains_key(name))
-        {
+        while let Some(sub_type_name) = unresolved_sub_types.pop() {
+            // NOTE: Skip types that were already collected (but keep resolving
+            // the remaining ones), as well as the primary type itself, which
+            // must not be repeated even if it is referenced recursively.
+            if sub_type_name == kind || sub_types.contains_key(sub_type_name) {
+                continue;
+            }
+
             let sub_type = self.type_definition(sub_type_name)?;
             unresolved_sub_types.extend(sub_type.struct_references());
             sub_types.insert(sub_type_name, sub_type);
